@@ -212,6 +212,7 @@ func cmdCheck(args []string) int {
 	byBackend := map[string]map[string]float64{}
 	samples := []interface{}{}
 	unproved := []string{}
+	cexTried := 0
 	var maxSecs float64
 	for _, o := range all {
 		good := o.Result.Status == "unsat"
@@ -257,8 +258,10 @@ func cmdCheck(args []string) int {
 			info["solver_output"] = firstLines(o.Result.Output, 200)
 		}
 		v := violation{obl: o.Name, desc: o.Desc, noInput: true}
-		// counterexample pipeline
-		if o.Query != "" && !o.Vacuity {
+		// counterexample pipeline (for the first few violations: each attempt is an interactive solver session plus a
+		// replay of the real code, and the verdict does not depend on how many of many violations get a witness)
+		cexTried++
+		if o.Query != "" && !o.Vacuity && cexTried <= 4 {
 			var fvOf *FV
 			for _, r := range results {
 				if r.fi != nil && r.fi.FullName() == o.Func {
